@@ -111,7 +111,9 @@ class HtmlGenerator(BaseScreen):
                 if isinstance(a, AttrSpec):
                     aspec = a
                 else:
-                    aspec = self._palette[a][{1: 1, 16: 0, 88: 2, 256: 3, 2**24: 4}[self.colors]]
+                    # undefined attributes use the default entry
+                    entry = self._palette.get(a, self._palette[None])
+                    aspec = entry[{1: 1, 16: 0, 88: 2, 256: 3, 2**24: 4}[self.colors]]
 
                 if y == cy and col <= cx:
                     run_width = str_util.calc_width(t_run, 0, len(t_run))
